@@ -104,9 +104,18 @@ func (vc *VC) atOthersUnchanged(name, newH, oldH, cond string) {
 
 // havocAll forgets everything about the heap (call without contract).
 func (vc *VC) havocAll(st *state) {
+	held, hasHeld := st.heap["G_held"]
+	if _, reg := vc.heapNames["G_held"]; reg && !hasHeld {
+		held, hasHeld = vc.heapGetQuiet(st, "G_held"), true
+	}
 	vc.epochCtr++
 	st.epoch = vc.epochCtr
 	st.heap = map[string]string{}
+	if hasHeld {
+		// locks held by the running goroutine stay held across a call (assumption: callees do not release
+		// a mutex their caller acquired)
+		st.heap["G_held"] = held
+	}
 	n := vc.declareConst("next", "Int")
 	vc.assume("true", fmt.Sprintf("(>= %s %s)", n, st.next))
 	st.next = n
